@@ -51,9 +51,29 @@ def outputs_equal(base, other, unstable=()):
             if k.endswith("PKG"):
                 continue        # package dumps record arrival order; the exchanged buffers below decide
             if toks_close(v, ov): continue     # "up to floating-point reassociation in sums whose order follows arrival order"
+            if k.endswith("RR") and canon_rr(v) is not None and canon_rr(v) == canon_rr(ov):
+                continue        # reverse exchange of rows: entries of one column may arrive merged or separately (same operator)
             diffs.append((cid, k, "%s vs %s" % (" ".join(v)[:200], " ".join(ov)[:200])))
     return diffs
 
+
+def canon_rr(toks):
+    """'@r k c v c v k c v ...' per rank -> per rank, per row the sorted (column, rounded sum) list; None when the line has another shape"""
+    out = []; i = 0
+    try:
+        while i < len(toks):
+            if not toks[i].startswith("@"): return None
+            i += 1; rows = []
+            while i < len(toks) and not toks[i].startswith("@"):
+                kk = int(toks[i]); i += 1; d = {}
+                for _ in range(kk):
+                    c_ = int(toks[i]); v_ = nums.parse_num(toks[i + 1]); i += 2
+                    if isinstance(v_, str): return None
+                    d[c_] = d.get(c_, 0) + v_
+                rows.append(sorted((c_, round(float(v_), 9)) for c_, v_ in d.items() if v_ != 0))
+            out.append(rows)
+    except (IndexError, ValueError): return None
+    return out
 
 def is_float_tok(x):
     return ("0x" in x and "p" in x) or x in ("inf", "-inf", "nan", "-nan") or (("." in x or "e" in x) and x.lstrip("-")[:1].isdigit())
